@@ -32,12 +32,13 @@ type ReplayFile struct {
 var claimed = map[string]bool{"C06": true, "C07": true, "C08": true, "C13": true, "C14": true}
 
 type driver struct {
-	verifDir string
-	self     string
-	tmp      string
-	workers  int
-	seq      int
-	mu       sync.Mutex
+	verifDir  string
+	self      string
+	tmp       string
+	workers   int
+	seq       int
+	mu        sync.Mutex
+	raceStats map[string]any
 }
 
 func envInt(name string, def int) int {
@@ -103,7 +104,16 @@ type workerOut struct {
 }
 
 func (d *driver) spawn(job Job, gomaxprocs int) *workerOut {
-	return d.spawnBin(d.self, job, gomaxprocs)
+	bin := d.self
+	if job.Replay != "" {
+		// scenarios that set tunable parameters need the spsa build
+		if b, err := os.ReadFile(job.Replay); err == nil && bytes.Contains(b, []byte(`"spsa":[{`)) || bytes.Contains(b, []byte(`"spsa": [`)) {
+			if sb := os.Getenv("VERIF_SPSA_BIN"); sb != "" {
+				bin = sb
+			}
+		}
+	}
+	return d.spawnBin(bin, job, gomaxprocs)
 }
 
 func (d *driver) spawnBin(bin string, job Job, gomaxprocs int) *workerOut {
@@ -221,6 +231,73 @@ func crashBlame(stderr string) (bool, string) {
 		return false, first + " in " + strings.TrimSpace(l)
 	}
 	return false, first
+}
+
+// raceOut is the result of one process of the free-running -race leg.
+type raceOut struct {
+	sum    *RaceSummary
+	stderr string
+	err    error
+	report string // first DATA RACE report, if any
+	panicS string
+	last   string // last RACE-SESSION line before the process ended
+}
+
+func (d *driver) spawnRace(job RaceJob, gomaxprocs int) *raceOut {
+	bin := os.Getenv("VERIF_RACE_BIN")
+	ro := &raceOut{}
+	if bin == "" {
+		ro.err = fmt.Errorf("no race binary")
+		return ro
+	}
+	d.mu.Lock()
+	d.seq++
+	id := d.seq
+	d.mu.Unlock()
+	outPath := filepath.Join(d.tmp, fmt.Sprintf("race%d.json", id))
+	js, _ := json.Marshal(job)
+	cmd := exec.Command(bin, "-test.run=^TestRaceLeg$", "-test.count=1", "-test.timeout=0")
+	cmd.Env = append(os.Environ(), "VERIF_MODE=worker", "VERIF_RACE_JOB="+string(js), "VERIF_OUT="+outPath, "GORACE=halt_on_error=1 exitcode=66", fmt.Sprintf("GOMAXPROCS=%d", gomaxprocs))
+	var stderr bytes.Buffer
+	cmd.Stderr = &stderr
+	cmd.Stdout = &stderr
+	ro.err = cmd.Run()
+	ro.stderr = stderr.String()
+	if b, err := os.ReadFile(outPath); err == nil {
+		s := &RaceSummary{}
+		if json.Unmarshal(bytes.TrimSpace(b), s) == nil {
+			ro.sum = s
+		}
+		os.Remove(outPath)
+	}
+	for _, l := range strings.Split(ro.stderr, "\n") {
+		if strings.HasPrefix(l, "RACE-SESSION") {
+			ro.last = l
+		}
+	}
+	if i := strings.Index(ro.stderr, "WARNING: DATA RACE"); i >= 0 {
+		rep := ro.stderr[i:]
+		if j := strings.Index(rep, "=================="); j > 0 {
+			rep = rep[:j]
+		}
+		ro.report = rep
+	} else if blame, what := crashBlame(ro.stderr); blame {
+		ro.panicS = what
+	}
+	return ro
+}
+
+// raceSites condenses a race report to the functions of the two accesses.
+func raceSites(report string) string {
+	var sites []string
+	lines := strings.Split(report, "\n")
+	for i, l := range lines {
+		t := strings.TrimSpace(l)
+		if (strings.HasPrefix(t, "Read at") || strings.HasPrefix(t, "Write at") || strings.HasPrefix(t, "Previous read") || strings.HasPrefix(t, "Previous write")) && i+1 < len(lines) {
+			sites = append(sites, strings.Fields(t)[0]+" "+strings.Fields(t)[1]+" in "+strings.TrimSpace(lines[i+1]))
+		}
+	}
+	return strings.Join(sites, " vs ")
 }
 
 func (d *driver) budget(tier string) float64 {
@@ -400,6 +477,59 @@ func (d *driver) check(prop, tier string) int {
 			}
 		}
 	}
+	// 4b. auxiliary free-running leg under the race detector (C13 only)
+	raceStats := map[string]any{}
+	if prop == "C13" && os.Getenv("VERIF_RACE_BIN") != "" && os.Getenv("VERIF_NO_RACE_LEG") == "" {
+		rb, procs := 12.0, 6
+		if tier == "thorough" {
+			rb, procs = d.budget(tier)/5, 8
+		}
+		if v, err := strconv.ParseFloat(os.Getenv("VERIF_RACE_BUDGET_S"), 64); err == nil {
+			rb = v
+		}
+		ros := make([]*raceOut, procs)
+		var rwg sync.WaitGroup
+		for i := 0; i < procs; i++ {
+			rwg.Add(1)
+			go func(i int) {
+				defer rwg.Done()
+				ros[i] = d.spawnRace(RaceJob{Seed: master, BudgetS: rb, First: i * 1_000_000}, []int{2, 4, 8}[i%3])
+			}(i)
+		}
+		rwg.Wait()
+		sessions, searches, incon, races := 0, 0, 0, 0
+		for _, ro := range ros {
+			if ro.sum != nil {
+				sessions += ro.sum.Sessions
+				searches += ro.sum.Searches
+				incon += ro.sum.Inconclusive
+				for k, v := range ro.sum.Stats {
+					agg.Stats["raceleg_"+k] += v
+				}
+				for _, v := range ro.sum.Violations {
+					rc := &RunCase{Property: prop, Leg: "race", Seed: master}
+					found = append(found, finding{run: &RunResult{Leg: "race", Seed: master, Case: rc, Violations: []Violation{v}}, v: v, from: "race"})
+				}
+			}
+			if ro.report != "" || ro.panicS != "" {
+				races++
+				var idx uint64
+				fmt.Sscanf(ro.last, "RACE-SESSION seed=%d index=%d", new(uint64), &idx)
+				v := Violation{Property: prop, Kind: "data-race", Detail: "[free-running leg, -race] " + raceSites(ro.report) + " :: " + tail(ro.report, 1500)}
+				if ro.report == "" {
+					v = Violation{Property: prop, Kind: "panic", Detail: "[free-running leg] driver process died: " + ro.panicS}
+				}
+				rc := &RunCase{Property: prop, Leg: "race", Seed: master, Run: idx}
+				found = append(found, finding{run: &RunResult{Leg: "race", Run: idx, Seed: master, Case: rc, Violations: []Violation{v}}, v: v, from: "race"})
+			} else if ro.sum == nil {
+				fmt.Fprintf(os.Stderr, "note: a race-leg process ended without a summary (%v): %s\n", ro.err, tail(ro.stderr, 600))
+			}
+		}
+		raceStats = map[string]any{"sessions": sessions, "searches": searches, "inconclusive_sessions": incon, "race_reports": races, "processes": procs, "budget_s_each": rb,
+			"note": "auxiliary: real goroutine scheduling and real clock under the race detector; not deterministic, replay best effort; the verdict of C13 rests on the deterministic leg"}
+		fmt.Printf("race leg: %d free-running sessions, %d searches, %d inconclusive, %d race reports\n", sessions, searches, incon, races)
+	}
+	d.raceStats = raceStats
 	sort.SliceStable(found, func(i, j int) bool { return found[i].run.Run < found[j].run.Run })
 
 	// 5. classify: recorded findings are named, anything else is a violation
@@ -422,6 +552,13 @@ func (d *driver) check(prop, tier string) int {
 		violations++
 		exit = 1
 		rf := &ReplayFile{Property: prop, Seed: f.run.Seed, Case: f.run.Case, Violation: f.v}
+		if f.from == "race" {
+			rf.Note = "free-running leg: replay re-runs the session under the race detector several times (best effort, not deterministic)"
+			p := d.writeReplay(prop, rf)
+			fmt.Printf("VIOLATION property=%s replay=%s\n", prop, p)
+			fmt.Printf("  kind=%s leg=race seed=%d session=%d\n  %s\n", f.v.Kind, f.run.Seed, f.run.Run, tail(f.v.Detail, 1200))
+			continue
+		}
 		if violations <= 3 && os.Getenv("VERIF_NO_MINIMISE") == "" {
 			d.minimise(rf, kf)
 		}
@@ -538,6 +675,23 @@ func (d *driver) replay(path string) int {
 	if err := json.Unmarshal(b, &rf); err != nil || rf.Case == nil {
 		fmt.Fprintln(os.Stderr, "bad replay file:", err)
 		return 2
+	}
+	if rf.Case.Leg == "race" {
+		for try := 0; try < 25; try++ {
+			ro := d.spawnRace(RaceJob{Seed: rf.Case.Seed, Sessions: 1, First: int(rf.Case.Run)}, []int{2, 4, 8}[try%3])
+			if ro.report != "" {
+				fmt.Printf("attempt %d: %s\n%s\n", try+1, raceSites(ro.report), tail(ro.report, 2500))
+				fmt.Printf("VIOLATION property=%s replay=%s\n", rf.Property, path)
+				return 1
+			}
+			if ro.sum != nil && len(ro.sum.Violations) > 0 {
+				fmt.Printf("attempt %d: %v\n", try+1, ro.sum.Violations[0])
+				fmt.Printf("VIOLATION property=%s replay=%s\n", rf.Property, path)
+				return 1
+			}
+		}
+		fmt.Printf("replay of %s: no race report in 25 attempts (this leg is not deterministic)\n", path)
+		return 0
 	}
 	wo := d.spawn(Job{Property: rf.Property, Replay: path, Keep: true}, 0)
 	if wo.summary == nil {
